@@ -148,7 +148,7 @@ def portSuffixOK (target sitePort : Bytes) : Bool :=
   if sitePort == b!"443" then target.isEmpty else target == sitePort
 
 /-- site `o` is served over HTTPS and wants a redirect -/
-def wantsRedirect (o : Observed) : Bool := o.fEnabled && !o.declared.noRedirect
+def obsWantsRedirect (o : Observed) : Bool := o.fEnabled && !o.declared.noRedirect
 
 def hasPlainSite (os : List Observed) (h : Bytes) : Bool := os.any fun o => o.fHost == h && o.fPort == b!"80"
 
@@ -156,29 +156,58 @@ def hasPlainSite (os : List Observed) (h : Bytes) : Bool := os.any fun o => o.fH
 C15-redirect-deferred-to-443-sibling): when redirects are made, `o` is not on the HTTPS port while another site of
 its host is, and that site produces no redirect itself (TLS off or no_redirect). -/
 def deferredTo443 (os : List Observed) (o : Observed) : Bool :=
-  o.ePort != b!"443" && os.any fun p => p.fHost == o.fHost && p.ePort == b!"443" && !wantsRedirect p
+  o.ePort != b!"443" && os.any fun p => p.fHost == o.fHost && p.ePort == b!"443" && !obsWantsRedirect p
+
+/-! the single violations, as tests on one observed site / one observed redirect site -/
+
+/-- P1 violated: in scope, and managed ≠ qualifies -/
+def offQualify (o : Observed) : Bool :=
+  hostInScope o.declared.host && bindInScope o.declared.listen && qualifies o.declared != o.managed
+/-- P2a violated: marked managed but not served over TLS in the end -/
+def offManagedTLS (o : Observed) : Bool := o.managed && !o.fEnabled
+/-- P2b violated: declared as plain HTTP but TLS enabled in the end -/
+def offHTTP (o : Observed) : Bool := declaredHTTP o.declared.scheme o.declared.port && o.fEnabled
+/-- P3a violated: a synthesised site that is not a plain site on the HTTP port -/
+def offPlain (r : ObservedRedirect) : Bool := r.fEnabled || r.fPort != b!"80"
+/-- the redirect of `r` goes to site `o`: same host, `o` served over HTTPS with no_redirect off, to `o`'s port -/
+def targetsSite (r : ObservedRedirect) (o : Observed) : Bool :=
+  o.fHost == r.fHost && obsWantsRedirect o && match r.target with | some t => portSuffixOK t o.fPort | none => false
+/-- P4 violated for `o`: HTTPS site wanting a redirect, no plain site of its host on the HTTP port, no redirect site for its host -/
+def offCover (os : List Observed) (rs : List ObservedRedirect) (o : Observed) : Bool :=
+  obsWantsRedirect o && !hasPlainSite os o.fHost && !rs.any fun r => r.fHost == o.fHost
 
 def sitesVerdict (os : List Observed) (rs : List ObservedRedirect) : String :=
   -- P1 managed exactly when qualifying
-  match os.find? (fun o => hostInScope o.declared.host && bindInScope o.declared.listen && qualifies o.declared != o.managed) with
+  match os.find? offQualify with
   | some o => if o.managed then "bad:managed-but-unqualified:" else "bad:qualifies-but-unmanaged:"
   | none =>
   -- P2 managed sites are really served over TLS; plain-HTTP declarations never are
-  if os.any (fun o => o.managed && !(o.fEnabled && o.fScheme == b!"https")) then "bad:managed-without-tls:"
-  else if os.any (fun o => declaredHTTP o.declared.scheme o.declared.port && o.fEnabled) then "bad:http-site-with-tls:"
-  -- P3 every synthesised site is a plain site on the HTTP port whose redirect goes to an HTTPS site of that host, to its port
-  else if rs.any (fun r => r.fEnabled || r.fPort != b!"80") then "bad:redirect-site-not-plain-http:"
+  if os.any offManagedTLS then "bad:managed-without-tls:"
+  else if os.any offHTTP then "bad:http-site-with-tls:"
+  -- P3 every synthesised site is a plain site on the HTTP port, for a host without plain site of its own, whose redirect
+  --    goes to an HTTPS site of that host, to its port; at most one per host
+  else if rs.any offPlain then "bad:redirect-site-not-plain-http:"
   else if rs.any (fun r => hasPlainSite os r.fHost) then "bad:redirect-shadows-plain-site:a redirect site was synthesised for a host that has its own site on the HTTP port"
-  else if rs.any (fun r => !os.any fun o => o.fHost == r.fHost && wantsRedirect o &&
-      match r.target with | some t => portSuffixOK t o.fPort | none => false)
+  else if rs.any (fun r => !os.any (targetsSite r))
     then "bad:redirect-target-not-https-site:a synthesised redirect does not point at an HTTPS site of its host (right port, TLS on, no_redirect off)"
   else if !(rs.map (·.fHost)).Nodup then "bad:duplicate-redirect-site:"
   -- P4 every HTTPS site (no_redirect off) without a plain site of its host on the HTTP port is covered by a redirect site
-  else match os.find? (fun o => wantsRedirect o && !hasPlainSite os o.fHost && !rs.any fun r => r.fHost == o.fHost) with
+  else match os.find? (offCover os rs) with
     | some o =>
       if deferredTo443 os o then "bad:redirect-missing-443-sibling:an HTTPS site has no redirect site because a site of the same host on port 443 (which produces no redirect itself) is preferred"
       else "bad:redirect-missing:an HTTPS site without plaintext site on the HTTP port has no redirect site"
     | none => "ok"
+
+/-- what the model pipeline shows of a declared site `d` (the same fields the stream c15.sites reports) -/
+def observeSite (d : Site) : Observed :=
+  let m := markOne d
+  let e := enableOne m
+  let f := defaultPortOne (makeServersOne e)
+  { declared := d, managed := m.managed, ePort := e.port, fScheme := f.scheme, fHost := f.host, fPort := f.port, fEnabled := f.enabled }
+
+/-- what the model pipeline shows of a synthesised site -/
+def observeRedirect (r : Site) : ObservedRedirect :=
+  { fHost := r.host, fPort := r.port, fEnabled := r.enabled, target := r.redir }
 
 /-! ## the redirect answer -/
 
@@ -212,7 +241,7 @@ def redirectVerdict (port hdr target : Bytes) (status : Nat) (loc : Bytes) : Str
   if !hostHeaderInScope hdr then "ok"
   else if status != 301 then "bad:redirect-status:not a permanent redirect"
   else
-    let pre := b!"https://" ++ hexEscapeNonASCII (hostOnly hdr) ++ (if port.isEmpty || port == b!"443" then [] else b!":" ++ port)
+    let pre := hexEscapeNonASCII (b!"https://" ++ hostOnly hdr ++ (if port.isEmpty || port == b!"443" then [] else b!":" ++ port))
     if !hasPrefix loc pre then "bad:redirect-location:not https://<request host>[:port]…"
     else if target == b!"*" then (if loc.drop pre.length == b!"*" then "ok" else "bad:redirect-location:path")
     else if !sameURI (loc.drop pre.length) target then "bad:redirect-location:path or query differ from the request"
